@@ -115,6 +115,11 @@ def run(ctx):
             tid += 1
             trs.append({"tid": tid, "seq": list(var), "ev": [{"q": q, "r": common.fx(v[1])} for q, v in outs.items()]})
     patterning.judge_traces(ctx, trs, need_sqrt=max(len(s) for s in seqs))
+    # the strata of the delta-max search under reversal, inversion and same-class replacement (replies compared with each other; the
+    # values themselves are judged for a smaller sample above): 18 and more neutrals with unequal charge counts, lopsided ratios ...
+    for comp in patterning.composition_grid(ctx.rng, ctx.pick(40, 400)):
+        compare_variants(ctx, lc, common.spell(patterning.arrange(comp, ctx.rng), ctx.rng))
+        ctx.evaluations += 1
     # lengths next to powers of two (blob counts that are multiples of a chunk size): delta under reversal and inversion
     near = [2 ** k + d for k in (6, 7, 8, 9, 10, 11) for d in (3, 4, 5, 6, 7)]
     for n_ in (near if not ctx.quick else ctx.rng.sample(near, 12) + [517, 518, 1029, 1030]):
